@@ -106,6 +106,22 @@ fn dead_programs() -> Vec<Dead> {
         }
         v.push(Dead { id: format!("err.bare-{}.throw.module", n), src: format!("export const dead_exported = 1;\n{}", body.replace("FAULT", FAULTS[0].1)), module_path: Some("/dead/bare.ts".into()), stall: false });
     }
+    // orders issued without the run ever suspending on them (`order` reached through a native
+    // higher-order function), then the run dies: nothing has handed them to the host yet
+    for (fname, fault) in FAULTS {
+        v.push(Dead {
+            id: format!("err.indirect-orders.{}", fname),
+            src: format!("import {{ order }} from \"tsrun:host\";\n[{{dead: 5}}, {{dead: 6}}].forEach(order);\nconst dead_ps = [{{dead: 7}}].map(order);\n{}", fault),
+            module_path: None,
+            stall: false,
+        });
+        v.push(Dead {
+            id: format!("err.indirect-orders-in-fn.{}.module", fname),
+            src: format!("import {{ order }} from \"tsrun:host\";\nexport const dead_exported = 1;\nfunction dead_f(){{ [{{dead: 8}}].forEach(order); return [{{dead: 9}}, {{dead: 10}}].map(order).length; }}\ndead_f();\n{}", fault),
+            module_path: Some("/dead/indirect.ts".into()),
+            stall: false,
+        });
+    }
     v
 }
 
@@ -131,6 +147,12 @@ fn abandon_programs() -> Vec<Dead> {
             module_path: None,
             stall: false,
         })
+        .chain(std::iter::once(Dead {
+            id: "abandon.indirect-orders".into(),
+            src: "import { order } from \"tsrun:host\";\n{ [{dead: 11}, {dead: 12}].forEach(order);\nlet dead_sink = [];\nfor (let dead_i = 0; dead_i < 12; dead_i++) { dead_sink.push([{dead: 13}].map(order).length); }\ndead_sink.length; }".into(),
+            module_path: None,
+            stall: false,
+        }))
         .collect()
 }
 
